@@ -275,6 +275,39 @@ def find_closures(sf, lo, hi):
     return out
 
 
+def place_ghost_at_anchors(sf, ed, spec, lo, hi, used):
+    """`//@ after <<tokens>>` / `//@ before <<tokens>>`: ghost text (assert / let ghost) placed after the end of,
+    or before the start of, the statement that contains the (unique) token sequence. Lost anchor => undecided."""
+    st, m = sf.st, sf.m
+    for key in list(spec.sections):
+        if not (isinstance(key, tuple) and key[0] in ('after', 'before')):
+            continue
+        texts = plain_texts(key[1])
+        hits = find_token_seq(sf, lo, hi, texts)
+        if len(hits) != 1:
+            raise ExtractError('%s: ghost anchor `%s` matches %d sites (anchor lost)' % (spec.path, key[1], len(hits)))
+        h = hits[0]
+        if key[0] == 'before':
+            ed.ins(st[h].start, '\n' + spec.sections[key] + '\n')
+        else:
+            k = h
+            while True:
+                tx = st[k].text
+                if tx in OPEN:
+                    k = m[k]
+                    if st[k].text == '}' and st[k + 1].text not in (';', '.', '?', 'else'):
+                        break
+                    k += 1
+                    continue
+                if tx == ';':
+                    break
+                if tx in (')', ']', '}'):
+                    raise ExtractError('%s: ghost anchor `%s` is a tail expression' % (spec.path, key[1]))
+                k += 1
+            ed.ins(st[k].end, '\n' + spec.sections[key] + '\n')
+        used.add(key)
+
+
 SIMPLE_TOK = re.compile(r'^([A-Za-z_][A-Za-z0-9_]*|[0-9][0-9A-Za-z_]*|\.|&|\*|::)$')
 
 
@@ -530,6 +563,7 @@ def emit_item(spec, log, vacuity=False):
                 ed.ins(st[loops[n - 1][1]].start, '\n' + spec.sections[('loop', n)] + '\n')
                 used.add(('loop', n))
             annotate_closures(sf, ed, spec, body_open + 1, it.last, used)
+            place_ghost_at_anchors(sf, ed, spec, body_open + 1, it.last, used)
         lo_rw, hi_rw = hdr_lo, it.last + 1
     else:
         lo_rw, hi_rw = hdr_lo, it.last + 1
@@ -579,6 +613,22 @@ def emit_slice(spec, log, vacuity=False):
             raise ExtractError('%s: closure %d has no block body' % (spec.path, n))
         lo, hi = b0 + 1, b1 - 1       # tokens inside the braces
         desc = 'closure %d' % n
+    elif sel[0] == 'loopbody':
+        hits = [lp for lp in find_loops(sf, it.body_open + 1, it.last)
+                if find_token_seq(sf, lp[0], lp[1], plain_texts(sel[1]))]
+        if len(hits) != 1:
+            raise ExtractError('%s: loop head `%s` matches %d loops (anchor lost)' % (spec.path, sel[1], len(hits)))
+        lo, hi = hits[0][1] + 1, m[hits[0][1]] - 1
+        desc = 'body of the loop `%s ..`' % sel[1]
+    elif sel[0] == 'afterstmt':
+        hits = find_token_seq(sf, it.body_open + 1, it.last, plain_texts(sel[1]))
+        if len(hits) != 1:
+            raise ExtractError('%s: slice anchor `%s` matches %d sites (anchor lost)' % (spec.path, sel[1], len(hits)))
+        k = hits[0]
+        while st[k].text != ';':
+            k = m[k] + 1 if st[k].text in OPEN else k + 1
+        lo, hi = k + 1, it.last - 1
+        desc = 'all statements after `%s`' % sel[1]
     else:
         f_texts, t_texts = plain_texts(sel[1]), plain_texts(sel[2])
         fh = find_token_seq(sf, it.body_open + 1, it.last, f_texts)
@@ -597,6 +647,10 @@ def emit_slice(spec, log, vacuity=False):
                 k += 1
                 continue
             if tx == ';':
+                break
+            if tx in (')', ']', '}'):
+                # tail expression of the enclosing block
+                k -= 1
                 break
             k += 1
         hi = k
@@ -619,6 +673,7 @@ def emit_slice(spec, log, vacuity=False):
     for n2 in want_loops:
         ed.ins(st[loops[n2 - 1][1]].start, '\n' + spec.sections[('loop', n2)] + '\n')
     annotate_closures(sf, ed, spec, lo, hi + 1, set())
+    place_ghost_at_anchors(sf, ed, spec, lo, hi + 1, set())
     apply_rws(sf, ed, spec, lo, hi + 1)
     text = ed.render()
     log.append({'path': spec.path + ' :: ' + desc, 'file': sf.rel, 'start': start, 'end': end, 'sigonly': False, 'slice': True,
@@ -800,9 +855,16 @@ def expand_fragment(frag_name, text, out_lines, regions, log, vacuity=False):
                     opts['sel'] = ('closure', int(ms.group(1)))
                 else:
                     ms = re.match(r'^stmts\s+<<(.*?)>>\s*\.\.\s*<<(.*?)>>$', selector.strip())
-                    if not ms:
+                    ml = re.match(r'^loopbody\s+<<(.*?)>>$', selector.strip())
+                    ma = re.match(r'^after\s+<<(.*?)>>$', selector.strip())
+                    if ms:
+                        opts['sel'] = ('stmts', ms.group(1), ms.group(2))
+                    elif ml:
+                        opts['sel'] = ('loopbody', ml.group(1))
+                    elif ma:
+                        opts['sel'] = ('afterstmt', ma.group(1))
+                    else:
                         raise ExtractError('%s: bad slice selector %s' % (frag_name, selector))
-                    opts['sel'] = ('stmts', ms.group(1), ms.group(2))
             spec = ItemSpec(path, opts, i)
             cur_sec = None
             buf = []
@@ -837,6 +899,12 @@ def expand_fragment(frag_name, text, out_lines, regions, log, vacuity=False):
                     elif w[0] == 'loop':
                         flush()
                         cur_sec = (w[0], int(w[1]))
+                    elif w[0] in ('after', 'before'):
+                        flush()
+                        mc = re.match(r'^(after|before)\s+<<(.*)>>\s*$', d2)
+                        if not mc:
+                            raise ExtractError('%s: bad %s directive (%s)' % (frag_name, w[0], d2))
+                        cur_sec = (mc.group(1), mc.group(2))
                     elif w[0] == 'rw':
                         flush()
                         mr = RW_RE.match(d2)
